@@ -53,6 +53,15 @@ func New(gates ...string) *Controller {
 	return c
 }
 
+func (c *Controller) prefixGate(point string) bool {
+	for g := range c.gates {
+		if strings.HasSuffix(g, "*") && strings.HasPrefix(point, g[:len(g)-1]) {
+			return true
+		}
+	}
+	return false
+}
+
 // Point is the hook body.
 func (c *Controller) Point(point string, args ...any) {
 	c.mu.Lock()
@@ -63,7 +72,7 @@ func (c *Controller) Point(point string, args ...any) {
 	if c.OnEvent != nil {
 		c.OnEvent(point, args)
 	}
-	if !(c.allGate || c.gates[point]) {
+	if !(c.allGate || c.gates[point] || c.prefixGate(point)) {
 		c.mu.Unlock()
 		return
 	}
